@@ -503,6 +503,20 @@ class _Builder:
                 return [i.context_expr for i in st.items]
             if isinstance(st, (ast.Try, ast.FunctionDef, ast.AsyncFunctionDef, ast.ClassDef)):
                 return []
+            if isinstance(st, (ast.Assign, ast.AnnAssign)):
+                # a store target is not a read: `d[k] = v` evaluates d and k, not d[k]
+                out_: list[ast.expr] = [st.value] if st.value is not None else []
+                for tg in st.targets if isinstance(st, ast.Assign) else [st.target]:
+                    for n in [tg] if not isinstance(tg, (ast.Tuple, ast.List)) else list(tg.elts):
+                        if isinstance(n, ast.Subscript):
+                            out_ += [n.value, n.slice]
+                        elif isinstance(n, ast.Attribute):
+                            out_.append(n.value)
+                        elif isinstance(n, ast.Starred):
+                            pass
+                return out_
+            if isinstance(st, ast.Delete):
+                return [c for tg in st.targets for c in ([tg.value, tg.slice] if isinstance(tg, ast.Subscript) else [])]
             return [c for c in ast.iter_child_nodes(st) if isinstance(c, ast.expr)]
 
         def visit(stmts: list[ast.stmt]) -> None:
